@@ -192,59 +192,76 @@ def r09_2(ctx, repo):
 
 def r09_3(ctx, repo):
     rule = 'R09.3'
+    from ..seqs import SeqEval, Seg, Alt, END
     fn = repo.method(CLS, 'enable_sensitivities')
     construct = CLS + '.enable_sensitivities'
-    loops = [l for l in fn.body if isinstance(l, ast.For)]
-    ok = False
-    for l in loops:
-        if isinstance(l.iter, ast.Call) and U(l.iter.func) == 'enumerate' \
-                and U(l.iter.args[0]) == 'self._parameter_names':
-            i, p = [U(x) for x in l.target.elts]
-            tests = [t for t in ast.walk(l) if isinstance(t, ast.If)]
-            inits = [c for c in ast.walk(l) if isinstance(c, ast.BinOp)
-                     and "'init('" in U(c)]
-            if tests and U(tests[0].test).replace(' ', '') == \
-                    '%s<self._n_states' % i and inits and any(
-                        x in ast.walk(tests[0]) for x in inits):
-                ok = True
-                ctx.ok(rule, repo.loc(l, CLS, fn.name), construct,
-                       'sensitivities are requested in published order, '
-                       'init(.) for the first n_states entries')
-    if not ok:
-        ctx.error(rule, '%s: the sensitivity request is not built by one '
-                  'pass over the published parameter names with init(.) for '
-                  'indices < n_states (idiom not recognised)' % construct)
-    # the request handed to the simulation: (output names, parameters)
     sims = [c for c in ast.walk(fn) if isinstance(c, ast.Call)
             and U(c.func).endswith('Simulation') and any(
                 k.arg == 'sensitivities' for k in c.keywords)]
-    tup = [a for a in ast.walk(fn) if isinstance(a, ast.Assign)
-           and U(a.targets[0]) == 'sensitivities']
-    if sims and tup and U(tup[0].value).replace(' ', '') == \
-            '(self._output_names,parameters)':
-        ctx.ok(rule, repo.loc(sims[0], CLS, fn.name), construct,
+    if not sims:
+        ctx.error(rule, '%s: no Simulation(..., sensitivities=...) found'
+                  % construct)
+        ctx.floor(rule, 2)
+        return
+    sim = sims[0]
+    req = [k.value for k in sim.keywords if k.arg == 'sensitivities'][0]
+    # top-level statement holding the request tuple
+    body = repo.body_wo_doc(fn)
+
+    def top_of(node):
+        for k, s_ in enumerate(body):
+            if any(x is node for x in ast.walk(s_)):
+                return k
+        return None
+    tup = req
+    if isinstance(req, ast.Name):
+        defs = [a for a in ast.walk(fn) if isinstance(a, ast.Assign)
+                and U(a.targets[0]) == req.id and isinstance(
+                    a.value, ast.Tuple) and len(a.value.elts) == 2]
+        tup = defs[-1].value if defs else None
+    if not isinstance(tup, ast.Tuple) or len(tup.elts) != 2:
+        ctx.error(rule, '%s: the sensitivity request `%s` is not a pair '
+                  '(outputs, parameters)' % (construct, U(req)[:50]))
+        ctx.floor(rule, 2)
+        return
+    stop = top_of(tup)
+    se = SeqEval(['self._parameter_names'])
+    se.run(body[:stop])
+    val = se.env.get(U(tup.elts[1])) if U(tup.elts[1]) in se.env \
+        else se.ev(tup.elts[1])
+    want = (Seg('self._parameter_names', '0', 'self._n_states',
+                "'init(' + $ + ')'"),
+            Seg('self._parameter_names', 'self._n_states', END, 'id'))
+    alts = val.alts if isinstance(val, Alt) else [val]
+    where = repo.loc(sim, CLS, fn.name)
+
+    def strip(v):
+        return tuple(Seg(x.src, x.lo, x.hi, x.tf) for x in v)
+    if any(a is None for a in alts):
+        ctx.error(rule, '%s: construction of the requested parameter list '
+                  '`%s` not recognised' % (construct, U(tup.elts[1])[:40]))
+    elif all(strip(a) == want for a in alts):
+        ctx.ok(rule, where, construct,
+               'sensitivities are requested in published order, init(.) '
+               'for the first n_states entries')
+    else:
+        bad = [a for a in alts if strip(a) != want][0]
+        ctx.violation(
+            rule, where, construct, 'request order',
+            'the parameters handed to the solver are %s; the published '
+            'order is init(.) of the first n_states names followed by the '
+            'remaining names: the derivative columns are returned in a '
+            'different order than parameters() reports' % (
+                ' + '.join(repr(x) for x in bad) or '[]'))
+    if U(tup.elts[0]) == 'self._output_names':
+        ctx.ok(rule, where, construct,
                'the simulation is built with (selected outputs, parameters '
                'in published order)')
     else:
-        ctx.error(rule, '%s: the simulation is not built with '
-                  'sensitivities = (self._output_names, parameters) (idiom '
-                  'not recognised)' % construct)
-    # the optional filter preserves the order (iterates the full list)
-    filt = [l for l in ast.walk(fn) if isinstance(l, ast.For)
-            and 'parameter_name_map' in U(l.iter)]
-    if filt:
-        l = filt[0]
-        app = [c for c in ast.walk(l) if isinstance(c, ast.Call)
-               and isinstance(c.func, ast.Attribute)
-               and c.func.attr == 'append']
-        idx = U(l.target.elts[0]) if isinstance(l.target, ast.Tuple) else ''
-        if app and U(app[0].args[0]) == 'parameters[%s]' % idx:
-            ctx.ok(rule, repo.loc(l, CLS, fn.name), construct,
-                   'the parameter filter keeps the published order')
-        else:
-            ctx.violation(rule, repo.loc(l, CLS, fn.name), construct,
-                          'filter order', 'the parameter filter does not '
-                          'select `parameters[index]` in published order')
+        ctx.violation(rule, where, construct, 'request outputs',
+                      'the sensitivity request is built for `%s`, not for '
+                      'the selected outputs self._output_names' % U(
+                          tup.elts[0]))
     ctx.floor(rule, 2)
 
 
